@@ -870,6 +870,75 @@ def genskip_pass(run: Run, pkg: Package, funcs: List[FunctionInfo]) -> int:
 
 
 # --------------------------------------------------------------------------------------------------------------------
+def latebind_pass(run: Run, pkg: Package, funcs: List[FunctionInfo], modules=()) -> int:
+    """R-LATEBIND: a lambda (or nested def) created inside a loop / comprehension that reads the loop variable as a free variable
+    and is STORED (dictionary / list entry, attribute) for later use: Python closures capture the variable, not its value, so
+    after the loop every stored function sees the last value.  Binding through a default argument (`lambda x, _l=l: ...`) or
+    functools.partial is the correct idiom and is not matched; a function used only inside the iteration that creates it is not
+    stored and not matched."""
+    n = 0
+    roots = [(fi, fi.node) for fi in funcs] + [(m, m.tree) for m in modules]
+    seen = set()
+    for fi, root in roots:
+        par = parents_map(root)
+        for loop in ast.walk(root):
+            if isinstance(loop, (ast.For, ast.comprehension)):
+                tgt = {m.id for m in ast.walk(loop.target) if isinstance(m, ast.Name)}
+                if isinstance(loop, ast.For):
+                    body_nodes = [x for st in loop.body for x in ast.walk(st)]
+                else:
+                    owner = par.get(loop)
+                    body_nodes = [x for x in ast.walk(owner)] if owner is not None else []
+            else:
+                continue
+            for lam in body_nodes:
+                if not isinstance(lam, (ast.Lambda, ast.FunctionDef)) or id(lam) in seen:
+                    continue
+                a = lam.args
+                bound = {x.arg for x in a.args + a.kwonlyargs + a.posonlyargs} | ({a.vararg.arg} if a.vararg else set()) | ({a.kwarg.arg} if a.kwarg else set())
+                inner = lam.body if isinstance(lam, ast.Lambda) else ast.Module(body=lam.body, type_ignores=[])
+                free = {m.id for m in ast.walk(inner) if isinstance(m, ast.Name) and isinstance(m.ctx, ast.Load)} - bound
+                # names assigned inside a def are locals
+                if isinstance(lam, ast.FunctionDef):
+                    free -= {m.id for m in ast.walk(inner) if isinstance(m, ast.Name) and isinstance(m.ctx, ast.Store)}
+                late = sorted(free & tgt)
+                if not late:
+                    continue
+                n += 1
+                # stored?
+                p_ = par.get(lam)
+                stored = False
+                if isinstance(lam, ast.Lambda):
+                    if isinstance(p_, ast.Assign) and any(isinstance(t, (ast.Subscript, ast.Attribute)) for t in p_.targets):
+                        stored = True
+                    elif isinstance(p_, ast.DictComp) and p_.value is lam:
+                        stored = True
+                    elif isinstance(p_, ast.ListComp) and p_.elt is lam:
+                        stored = True
+                    elif isinstance(p_, ast.Dict):
+                        stored = True
+                    elif isinstance(p_, ast.Call) and isinstance(p_.func, ast.Attribute) and p_.func.attr in ("append", "setdefault", "update", "insert"):
+                        stored = True
+                else:
+                    nm = lam.name
+                    for st in body_nodes:
+                        if isinstance(st, ast.Assign) and isinstance(st.value, ast.Name) and st.value.id == nm and any(isinstance(t, (ast.Subscript, ast.Attribute)) for t in st.targets):
+                            stored = True
+                        if isinstance(st, ast.Call) and isinstance(st.func, ast.Attribute) and st.func.attr in ("append", "setdefault") and any(isinstance(x, ast.Name) and x.id == nm for x in st.args):
+                            stored = True
+                if not stored:
+                    continue
+                seen.add(id(lam))
+                where = short(fi.qual) if isinstance(fi, FunctionInfo) else f"{short(fi.name)} (module level)"
+                loc = fi.loc(lam) if isinstance(fi, FunctionInfo) else f"{fi.relpath}:{lam.lineno}"
+                run.ob("R-LATEBIND", where, f"{','.join(late)}@{norm_stmt(_stmt_of(lam, par))[:60]}", False,
+                       "a function stored per iteration computes with the value the loop variable had when it was stored",
+                       f"{ast.unparse(lam)[:80]} reads the loop variable {late} as a free variable and is stored for later use",
+                       witness=f"after the loop every stored function sees the last value of {late[0]}: all entries compute the same thing as the last one", loc=loc, sound=True)
+    return n
+
+
+# --------------------------------------------------------------------------------------------------------------------
 def savepath_pass(run: Run, pkg: Package, funcs: List[FunctionInfo]) -> int:
     """R-SAVE-PATH: a routine that writes its result to a file named by one of its parameters does so on every path that returns
     a result.  A `return <value>` that precedes the first save site (an early exit / fast path) hands back a value without
@@ -1137,6 +1206,7 @@ def state_pass(run: Run, pkg: Package, everything: bool = False, mask_forward_on
             "label_count_loops": labelcount_pass(run, pkg, funcs),
             "reduceat_calls": reduceat_pass(run, pkg, funcs),
             "block_loops": blocktail_pass(run, pkg, funcs),
+            "stored_closures": latebind_pass(run, pkg, funcs, modules=[m for m in pkg.modules.values() if anchor_files and m.relpath in anchor_files]),
             "indexed_generators": genskip_pass(run, pkg, funcs),
         })
     run.extra["state_rules"] = {"functions": len(funcs), **counts}
